@@ -30,7 +30,9 @@ THEOREMS = ["C10_loop_is_per_sample_add", "C10_entry_is_dt_times_sample_count", 
             "C10_entries_sum_to_active_length", "C10_all_active_sum_is_length", "C10_interval_sample_count",
             "C10_cartesian_cell_error_at_most_one_step", "C10_cell_error_k_intervals_partial",
             "C10_merged_map_additive", "C10_phi_index_periodic", "C10_dt_below_two_steps",
-            "C10_mask_map_spec", "C10_sample_point_formula"]
+            "C10_mask_map_spec", "C10_sample_point_formula",
+            "C10_pipeline0d_matrix_is_mean_of_own_samples", "C10_pipeline0d_history_independent",
+            "C10_pipelineNd_rows_are_means", "C10_pipelineNd_history_independent"]
 
 PHI_TABLE = [(30, n) for n in (1, 2, 3, 4, 6, 12)] + [(45, n) for n in (1, 2, 4, 8)] + \
             [(60, n) for n in (1, 2, 3, 6)] + [(90, n) for n in (1, 2, 4)] + [(120, n) for n in (1, 3)] + \
@@ -352,7 +354,29 @@ def case_coq(g, vmname, c):
         qlit(c["length"]), qlist(c["init"]), qlist(c["out"]), zlit(c["err"]))
 
 
-HEADER = ("Require Import Cherab.Common.Qx Cherab.Model.C10_RayTransfer Cherab.Model.C10_Check.\n"
+def pipe_case_coq(dim, hist, outs):
+    kindc = {"power": "Power", "radiance": "Radiance"}
+    smp = lambda sm: "(%s, %s)" % (qlist(sm[0]), qlit(sm[1]))
+    pix = lambda k: "(%s, %s)" % ((zlit(k), zlit(0)) if dim == 1 else (zlit(k[0]), zlit(k[1])))
+    if dim == 0:
+        h = "[" + "; ".join("(%s, [%s])" % (kindc[ob["kind"]], "; ".join("[" + "; ".join(smp(sm) for sm in t) + "]" for t in ob["tasks"]))
+                            for ob in hist) + "]"
+        o = "[" + "; ".join(qlist([float(v) for v in m]) for m in outs) + "]"
+        return "b2z (check_p0 %s %s)" % (h, o)
+    h = "[" + "; ".join("(%s, %s, [%s])" % (kindc[ob["kind"]], zlit(ob["pixel_samples"]),
+                                            "; ".join("(%s, [%s])" % (pix(k), "; ".join(smp(sm) for sm in t)) for k, t in ob["tasks"]))
+                        for ob in hist) + "]"
+    rows = []
+    for ob, m in zip(hist, outs):
+        if dim == 1:
+            keys = list(range(ob["pixels"]))
+        else:
+            keys = [(x, y) for x in range(ob["pixels"][0]) for y in range(ob["pixels"][1])]
+        rows.append("[" + "; ".join("(%s, %s)" % (pix(k), qlist([float(v) for v in m[k]])) for k in keys) + "]")
+    return "b2z (check_pn %s %s)" % (h, "[" + "; ".join(rows) + "]")
+
+
+HEADER = ("Require Import Cherab.Common.Qx Cherab.Model.C10_RayTransfer Cherab.Model.C10_Pipeline Cherab.Model.C10_Check.\n"
           "Open Scope Q_scope.\n")
 
 
@@ -482,7 +506,7 @@ def run(ctx):
     rng = ctx.rng
     quick = ctx.quick
     nmax = 120 if quick else 250
-    n_grids = 44 if quick else 240
+    n_grids = 36 if quick else 240
     rays_per = 8 if quick else 16
 
     # ---- corpus of past disagreements first ---------------------------------------------------
@@ -593,7 +617,14 @@ def run(ctx):
         txt = (HEADER + "\n".join(defs) + "\nDefinition results : list Z := [\n  " + ";\n  ".join(cs)
                + "].\nEval vm_compute in results.\n")
         paths.append((ctx.write_gen("cases_%03d.v" % fi, txt), ids))
-    aux_all = mask_checks + phi_cases + chord_cases
+    # ---- pipelines.py: histories of observations on the same pipeline object, driven through its own methods ----
+    pipe_hist = []
+    for i in range(36 if quick else 300):
+        dim = i % 3
+        hist = S.gen_pipeline_history(rng, dim)
+        pipe_hist.append((dim, hist, S.drive_pipeline_api(dim, hist)))
+    pipe_cases = [pipe_case_coq(dim, hist, outs) for dim, hist, outs in pipe_hist]
+    aux_all = mask_checks + phi_cases + chord_cases + pipe_cases
     aux_paths = []
     for ai in range(0, len(aux_all), 400):
         aux_paths.append(ctx.write_gen("maps_phi_%03d.v" % (ai // 400), HEADER + "Definition results : list Z := [\n  "
@@ -633,8 +664,9 @@ def run(ctx):
             ctx.broken.append("coqc failed on %s: %s" % (ap, o[-500:]))
     good = good and len(zs) == len(aux_all)
     bad_aux = [i for i, z in enumerate(zs) if z == 0]
-    ctx.obligation("correspondence maps_phi.v (%d mask/voxel-map setters, %d angular-formula points, %d exact Cartesian chords)"
-                   % (len(mask_checks), len(phi_cases), len(chord_cases)), "correspondence", good and not bad_aux,
+    ctx.obligation("correspondence maps_phi_*.v (%d mask/voxel-map setters, %d angular-formula points, %d exact Cartesian chords, "
+                   "%d pipeline histories)" % (len(mask_checks), len(phi_cases), len(chord_cases), len(pipe_cases)),
+                   "correspondence", good and not bad_aux,
                    out[-1500:] if not good else "DISAGREE at %s" % bad_aux)
     n_calls = len(flat)
     ctx.log("correspondence: %d calls in %d files (%d traced), %d disagree; %d map / %d phi checks, %d disagree"
@@ -662,16 +694,17 @@ def run(ctx):
     # angular periods / sector sizes outside the model's table (search only)
     fails += S.search_other_periods(impl, rng, 20 if quick else 200, stats)
     # pipelines.py: matrix of a sight line = entries of its (single) ray
-    fails += S.search_pipeline(impl, rng, 4 if quick else 30, stats)
+    fails += S.search_pipeline_api(pipe_hist, stats)
+    fails += S.search_pipeline_histories(impl, rng, 6 if quick else 40, stats, gen_grid)
     for i in bad_aux:
-        if i >= len(mask_checks) + len(phi_cases):
+        if len(mask_checks) + len(phi_cases) <= i < len(mask_checks) + len(phi_cases) + len(chord_cases):
             ctx.broken.append("model chord_cart differs from the harness's exact cut: " + chord_cases[i - len(mask_checks) - len(phi_cases)][:400])
         if i < len(mask_checks):
             fails.append({"claim": "mask / voxel_map setter: voxel_map = running index of the active cells (C order), "
                                    "-1 elsewhere, bins = max + 1", "check": mask_checks[i][:300]})
     ctx.obligation("executable property on the implementation (%d rays, %d cell entries, %d periodic, %d merged, %d traced, %d pipeline)"
                    % (stats["rays"], stats["cells_compared"], stats["periodic"], stats["merged"], stats["traced_rays"],
-                      stats.get("pipeline", 0)),
+                      stats.get("pipeline_observations", 0) + stats.get("pipeline_api_observations", 0)),
                    "search", not fails, str(fails[:2])[:1500])
     seen = set()
     for f in fails:
@@ -689,8 +722,8 @@ def run(ctx):
                           "found no failing input" % (g["kind"], grids[gi]["cases"][ci]["class"]),
                           {"grid": g, "case": grids[gi]["cases"][ci], "correspondence": "coq/Gen/C10/cases_*.v"}, found=False)
         if bad_aux and not diff:
-            ctx.violation("c10-diff:phi", "the code-level angular formula and the exact sector decision differ",
-                          {"cases": [phi_cases[i - len(mask_checks)] for i in bad_aux[:3] if i >= len(mask_checks)]}, found=False)
+            ctx.violation("c10-diff:aux", "a mask / angular-formula / pipeline-history correspondence case no longer agrees with the model",
+                          {"cases": [aux_all[i][:600] for i in bad_aux[:3]]}, found=False)
 
     # ---- coverage ----------------------------------------------------------------------------------
     dist = {"class": {}, "kind": {}, "map_kind": {}, "transform": {}, "err": {}, "n_samples": {}}
@@ -712,7 +745,7 @@ def run(ctx):
                      if codes.get(i) == 1 and not grids[gi]["cases"][ci]["short"] and not grids[gi]["cases"][ci]["err"]
                      and sum(1 for a, b in zip(grids[gi]["cases"][ci]["init"], grids[gi]["cases"][ci]["out"]) if a != b) >= 2)
     ctx.coverage.update({
-        "evaluations": n_calls + len(mask_checks) + len(phi_cases) + len(chord_cases),
+        "evaluations": n_calls + len(aux_all),
         "distinct_nontrivial": nontrivial,
         "rule": "one case = one call of integrate(); non-trivial = compared up to rounding only (no ambiguous sample), "
                 "returned normally and changed at least two spectral bins",
